@@ -102,6 +102,7 @@ type Frame struct {
 	depth    int
 	silent   bool
 	recvT    types.Type
+	ifaceStatic types.Type
 	assumeHook func(*Term)
 }
 
@@ -718,6 +719,27 @@ func (fr *Frame) backEdge(from, h *ssa.BasicBlock, cond *Term, st *State) {
 	for _, inv := range fr.loopInvariants(lc, st, over) {
 		fr.oblS(cond, "inv.preserved", inv.src, inv.t, inv.props...)
 	}
+	if lc.spec != nil && len(lc.spec.BackEdges) > 0 {
+		env := fr.loopEnv(lc, st, nil) // header values under their own names
+		for phi, nv := range over {
+			env.vars[phiName(phi)+"1"] = CVal{T: nv, Ty: phi.Type()}
+		}
+		for _, c := range lc.spec.BackEdges {
+			t, err := fr.ex.safeEval(env, func() *Term { return env.boolOf(c.E) })
+			if err != "" {
+				fatal("contract error in backedge clause of %s #%d: %s", funcName(fr.fn), lc.ordinal, err)
+			}
+			ps := labelProps(c.Labels)
+			if len(ps) == 0 {
+				ps = []string{"C13"}
+			}
+			name := ""
+			if len(c.Labels) > 0 {
+				name = c.Labels[0]
+			}
+			fr.ex.oblige(&Obl{Fn: funcName(fr.ex.top), Kind: "loop.step", Guard: cond, Goal: t, Props: ps, Via: fr.chain, Snip: c.Src, Name: name})
+		}
+	}
 	for _, name := range lc.framed {
 		cur := st.get(name, memArrays[name])
 		o := &Obl{Fn: funcName(fr.ex.top), Kind: "frame.loop", Guard: cond, Goal: fr.ex.frameFormula(name, cur), Props: fr.ex.frameProps, Snip: "modifies: " + name, Via: fr.chain}
@@ -726,7 +748,11 @@ func (fr *Frame) backEdge(from, h *ssa.BasicBlock, cond *Term, st *State) {
 	if lc.decrInit != nil {
 		d := fr.loopDecreases(lc, st, over)
 		// measure is a signed 64-bit quantity: strictly decreases and stays >= 0 before
-		fr.oblG(cond, "decreases", h.Instrs[0].Pos(), And(BVSlt(d, lc.decrInit), BVSle(BVLit(0, 64), lc.decrInit)), "C13")
+		if d.Sort == SInt {
+			fr.oblG(cond, "decreases", h.Instrs[0].Pos(), And(ILt(d, lc.decrInit), ILe(IntLit(0), lc.decrInit)), "C13")
+		} else {
+			fr.oblG(cond, "decreases", h.Instrs[0].Pos(), And(BVSlt(d, lc.decrInit), BVSle(BVLit(0, 64), lc.decrInit)), "C13")
+		}
 	}
 }
 
@@ -985,8 +1011,18 @@ func callWrites(c *ssa.CallCommon, visiting map[*ssa.Function]bool) map[string]b
 		}
 		return out
 	}
-	// dynamic call
-	out["*"] = true
+	// dynamic call: the in-scope functions whose address is taken with this signature, and (for
+	// open function values, as in callDynamic) the arrays of slice arguments
+	for _, a := range c.Args {
+		for _, n := range argArrays(a.Type()) {
+			out[n] = true
+		}
+	}
+	for _, f := range funcValueCandidates(c.Signature()) {
+		for n := range funcWrites(f, visiting) {
+			out[n] = true
+		}
+	}
 	return out
 }
 
